@@ -2,9 +2,14 @@
    caches accumulate) and the implementation's observation after every operation.
    check_corr : the model's run equals the implementation's observations.
    check_spec : every observation agrees with the mapping the (current) scope denotes / with volatility /
-                with the rebuilt scope — computed from Spec.v only. *)
+                with the scope built from the changed constants — computed from Spec.v / SpecChange.v only.
+   What check_spec shares with Model.v (round-5 audit): the DATA TYPES (scope, expr, op, obs, result), the association
+   list helpers `lookup / mem / dict_set / union / nodupN`, the expression semantics `eval` and `free_vars` (the meaning
+   of an expression is part of the specification: "evaluating the mapping expressions"), and the canonical comparisons
+   defined here.  It calls none of the model's access paths, neither `cc / rebuild / update_vals` nor `scope_eqb`. *)
 From Coq Require Import ZArith NArith QArith Bool List.
-Require Import QV.common.Util QV.C13.Model QV.C13.Pure QV.C13.Spec QV.C13.Heap QV.C13.HeapCC QV.C13.HeapCheck QV.C13.TEq.
+Require Import QV.common.Util QV.C13.Model QV.C13.Pure QV.C13.Spec QV.C13.SpecChange QV.C13.Heap QV.C13.HeapCC QV.C13.HeapCheck
+               QV.C13.TEq.
 Import ListNotations.
 
 (* CHist: `l` = the identities of the Python objects the harness built for `s` (equal ids = one object, i.e. one set of
@@ -128,7 +133,7 @@ Fixpoint vol_names (s : scope) : list ident :=
    the value the parameter has in the rebuilt scope.  With env = the current constants this is the current value. *)
 Definition spec_volx_env (s : scope) (ve : list (ident * list (option Q))) (j : nat) (env : list (ident * Q)) : bool :=
   let nc := filter (fun kv => mem (fst kv) (vol_names s)) env in
-  let s' := rebuild s nc in
+  let s' := built_from_changed s nc in
   if env_for_b env s' && negb (changes_non_volatile s nc) && is_ok (denote_scope s) then
     match denote_scope s' with
     | Ok d' => forallb (fun xv => match lookup d' (fst xv) with
@@ -144,6 +149,17 @@ Fixpoint spec_volx_envs (s : scope) (ve : list (ident * list (option Q))) (j : n
   | [] => true
   | env :: r => spec_volx_env s ve j env && spec_volx_envs s ve (S j) r
   end.
+
+(* what equality must imply, from Spec.v only: the same mapping (or none on both sides), the same names, the same
+   volatile parameters *)
+Definition sem_equal (a b : scope) : bool :=
+  match denote_scope a, denote_scope b with
+  | Ok d1, Ok d2 => dict_seq_eqb d1 d2
+  | Err _, Err _ => true
+  | _, _ => false
+  end
+  && keys_eqb (domain a) (domain b)
+  && forallb (fun x => Bool.eqb (depends_on_volatile a x) (depends_on_volatile b x)) (names_of a ++ names_of b).
 
 Definition spec_obs (s : scope) (o : op) (b : obs) : bool :=
   let den := denote_scope s in
@@ -189,29 +205,28 @@ Definition spec_obs (s : scope) (o : op) (b : obs) : bool :=
       | Err _ => negb (is_ok den)
       end
   | OChange nc, BChange w e h => Bool.eqb w (changes_non_volatile s nc) && e && h
-  | OEq other, BEq e h => implb e h && implb (scope_eqb s other) e
+  (* == inside a history: equal => equal hash, equal => the same mapping / names / volatile parameters.  That a twin MUST
+     be equal is judged on the harness side (py_spec, from the generator's variant tag) and by check_corr *)
+  | OEq other, BEq e h => implb e h && implb e (sem_equal s other)
   | OOverwrite _, BOver => true
   | _, _ => false
+  end.
+
+(* the scope a history continues on, from the specification alone *)
+Definition spec_next (s : scope) (o : op) : scope :=
+  match o with
+  | OChange nc => built_from_changed s nc
+  | OOverwrite kv => overwritten s kv
+  | _ => s
   end.
 
 Fixpoint spec_run (s : scope) (ops : list op) (impl : list obs) : bool :=
   match ops, impl with
   | [], [] => true
   | o :: ops', b :: impl' =>
-      spec_obs s o b && spec_run (next_scope s o) ops' impl'
+      spec_obs s o b && spec_run (spec_next s o) ops' impl'
   | _, _ => false
   end.
-
-(* what equality must imply, from Spec.v only: the same mapping (or none on both sides), the same names, the same
-   volatile parameters *)
-Definition sem_equal (a b : scope) : bool :=
-  match denote_scope a, denote_scope b with
-  | Ok d1, Ok d2 => dict_seq_eqb d1 d2
-  | Err _, Err _ => true
-  | _, _ => false
-  end
-  && keys_eqb (domain a) (domain b)
-  && forallb (fun x => Bool.eqb (depends_on_volatile a x) (depends_on_volatile b x)) (names_of a ++ names_of b).
 
 Definition check_spec (c : case) : bool :=
   match c with
